@@ -977,3 +977,117 @@ spec("C12", plan=plan_c12,
           "transformers applied bottom-up: type, begin/end offsets, content flag, order and nesting.  Non-trivial: a run in which an "
           "already matched node was discarded by backtracking or by a caught exception.",
      assumptions=COMMON_ASSUME + ["reference model and its derivation tree (model/peg_model.hpp)"])
+
+# ---------------------------------------------------------------------------- C13
+SCOPE_OPS = ["state", "state", "action", "control", "enable", "disable"]
+
+
+def attach_switches(g, rnd):
+    """Scripted void actions in two families plus attached switches (change_* / enable_action / disable_action)."""
+    L = gen.Lowered(g)
+    cands = []
+    for r in g.rules:
+        for n in r.walk():
+            if n.op in ("ref", "state", "raise", "raise_message", "if_then", "slot"):
+                continue
+            ct = gen.ctype(n)
+            if ct not in cands:
+                cands.append(ct)
+    named = ["R%d" % i for i in range(len(g.rules)) if g.rules[i].op != "state"]
+    sid = [100]
+
+    def new_id():
+        sid[0] += 1
+        return sid[0]
+    sw0, sw1 = {}, {}
+    for ct in named + [c for c in cands if rnd.random() < 0.25]:
+        x = rnd.random()
+        if ct in sw0 or x > 0.6:
+            continue
+        kind = rnd.choice(["change_action", "change_state", "change_action_and_state", "change_states", "change_control",
+                           "enable_action", "disable_action", "change_state", "change_action"])
+        if kind == "change_action":
+            sw0[ct] = ["change_action", 1, -1]
+        elif kind == "change_state":
+            sw0[ct] = ["change_state", new_id(), rnd.choice([-1, 1])]  # b == 1: a state type that is only default-constructible
+        elif kind == "change_action_and_state":
+            sw0[ct] = ["change_action_and_state", 1, new_id()]
+        elif kind == "change_states":
+            sw0[ct] = ["change_states", new_id(), -1]
+        elif kind == "change_control":
+            sw0[ct] = ["change_control", 1, -1]
+        else:
+            sw0[ct] = [kind, -1, -1]
+    for ct in named + [c for c in cands if rnd.random() < 0.2]:
+        if ct in sw1 or rnd.random() > 0.4:
+            continue
+        kind = rnd.choice(["change_state", "change_states", "enable_action", "disable_action", "change_control"])
+        if kind in ("change_state", "change_states"):
+            sw1[ct] = [kind, new_id(), rnd.choice([-1, 1]) if kind == "change_state" else -1]
+        elif kind == "change_control":
+            sw1[ct] = ["change_control", 1, -1]
+        else:
+            sw1[ct] = [kind, -1, -1]
+    g.switches = {"0": sw0, "1": sw1}
+    for ct in named + cands:
+        if ct not in sw0 and rnd.random() < 0.5:
+            g.actions[ct] = rnd.choice([1, 2])
+        if ct not in sw1 and rnd.random() < 0.5:
+            g.fam1[ct] = rnd.choice([1, 2])
+
+
+def plan_c13(tier, seed, workdir, case):
+    if case is not None:
+        return replay_corpus_plan("C13", workdir, case, cfgset=7, extra_includes=C09_INCLUDES)
+    import random
+    rnd = random.Random(seed * 29 + 17)
+    q = tier == "quick"
+    gs = []
+    G = gen.Gen(seed * 1000 + 83, ops=CORE_OPS + SCOPE_OPS * 2 + ["must", "if_must", "try_catch_return_false", "try_catch_any_return_false", "raise", "list", "opt_must"],
+                max_depth=4, nrules=(2, 5))
+    for _ in range(90 if q else 900):
+        g, rej = G.grammar()
+        attach_switches(g, rnd)
+        gs.append(g)
+    # slots: scopes around leaves that fail after consuming, raise or throw
+    N = gen.N
+    S = lambda k: N("slot", k=k)
+    shapes = []
+    for i, wrap in enumerate(["state", "action", "control", "enable", "disable"]):
+        def W(kids, i=i, wrap=wrap):
+            if wrap == "state":
+                return N("state", kids, id=50 + i)
+            if wrap == "action":
+                return N("action", kids, fam=1)
+            return N(wrap, kids)
+        shapes.append(W([S(0)]))
+        shapes.append(W([S(0), S(1)]))
+        shapes.append(N("sor", [W([S(0), S(1)]), S(2)]))
+        shapes.append(N("star", [W([S(0)])]))
+        shapes.append(N("at", [W([S(0), N("state", [S(1)], id=70 + i)])]))
+        shapes.append(N("try_catch_any_return_false", [W([S(0), N("must", [S(1)])])]))
+        shapes.append(W([N("state", [S(0), N("state", [S(1)], id=80 + i)], id=90 + i), S(2)]))
+    sg = in_contexts(shapes, contexts=("bare", "seq"))
+    for g in sg:
+        attach_switches(g, rnd)
+    runs = []
+    for t in write_tus(workdir, "s1", gs, 8 if q else 20, 7, C09_INCLUDES):
+        runs.append(Run(t, args=["--prop", "C13"]))
+    for t in write_tus(workdir, "s2", sg, 12, 7, C09_INCLUDES):
+        runs.append(Run(t, args=["--prop", "C13", "--rc", "300" if q else "4000"]))
+    return runs
+
+
+spec("C13", plan=plan_c13,
+     rule="random grammars (2..5 recursive named rules) over core operators plus state< obs_state<k>, ... >, action< family, ... >, "
+          "control< second control, ... >, enable / disable, must / try_catch / raise, with two families of scripted void actions and "
+          "attached switches change_action, change_state, change_states, change_action_and_state, change_control, enable_action, "
+          "disable_action on named rules and sub-expressions; the same scopes around adversarial slots (fail after consuming, raise, "
+          "throw) inside sor / star / at / try_catch; all inputs to length 5/7 plus rapidcheck inputs and scripts; apply mode action and "
+          "nothing at top level.  Oracle: from the dynamic stack of rule attempts and a static table (rule type -> switch): every "
+          "attempt must be entered with exactly the action family, control, apply mode and state instance of its innermost enclosing "
+          "scope; every action call must be looked up in that family and receive that state; a state instance is constructed exactly once "
+          "at the start of the attached rule's attempt from the outer state, receives success exactly once with the cursor after the match "
+          "and the outer state iff the attempt matched (action-based variants: and actions are enabled), and is destroyed before the "
+          "attempt is left on every path.  Non-trivial: runs in which a state scope ended without success or two or more scopes were created.",
+     assumptions=COMMON_ASSUME + ["the switch table is emitted by the generator from the grammar text, the scope discipline is evaluated by harness/engine.hpp"])
